@@ -371,6 +371,20 @@ def run(ctx):
                                       'expected': 'coq/theories/C17/Conf.v run_ops on the same history'},
                    'creation history on which BeartypeConf and the model disagree')
     ctx.extra['correspondence_failures'] = len(failures)
+    # "from any thread": two threads asking for one new configuration under systematic single-preemption schedules over every
+    # line of BeartypeConf.__new__ (the scheduler of C15): one shared object, usable as soon as it is handed out
+    tcase = {'scenario': 'conf', 'seed': ctx.rng.getrandbits(20), 'mode': 'directed', 'max_targets': {'quick': 60, 'thorough': 100000}[ctx.tier]}
+    try:
+        t = run_impl('c15_impl.py', {'cases': [tcase]}, timeout=1800)[0]
+    except Exception as e:  # noqa
+        t = {'problems': ['the threaded probe crashed: ' + str(e)[-300:]], 'exceptions': [], 'schedules': 0}
+    ctx.evaluations += t.get('schedules', 0)
+    ctx.extra['threaded_schedules'] = t.get('schedules', 0)
+    if t.get('problems') or t.get('exceptions'):
+        failures.append((None, None))
+        ctx.report({'clause': 'memo_identity_threads'}, {'threaded_case': tcase, 'problems': t.get('problems', [])[:5], 'exceptions': t.get('exceptions', [])[:5],
+                                                          'failing_plans': t.get('failing_plans')},
+                   'two threads asking for one new configuration: not one shared, fully built object')
     if not proof_ok and not failures:
         ctx.broken(f'{PROP} ({proof_err.what})', proof_err.log)
 
@@ -380,6 +394,13 @@ def replay(ctx, path):
         body = json.load(f)
     ctx.safe_regenerate(regenerate)
     case = body['record'].get('case')
+    if body['record'].get('threaded_case'):
+        t = run_impl('c15_impl.py', {'cases': [body['record']['threaded_case']]}, timeout=1800)[0]
+        print(json.dumps({k: t.get(k) for k in ('problems', 'exceptions', 'failing_plans', 'schedules')})[:3000])
+        if t.get('problems') or t.get('exceptions'):
+            ctx.report(body.get('shape') or {'clause': 'memo_identity_threads'}, {'threaded_case': body['record']['threaded_case'],
+                                                                                  'problems': t.get('problems', [])[:5]}, 'still fails')
+        return
     if case:
         o = run_impl('c17_impl.py', {'cases': [case]})
         print('implementation:', json.dumps(o[0]))
